@@ -194,3 +194,110 @@ fn canary() {
     let b: u8 = kani::any();
     assert!(get_icc_ctx(200, b, 0) != 17, "canary: must fail");
 }
+
+// ================================================================================================
+// decode_icc as a command interpreter (18181-1 E.4.3 header, E.4.4 tag list, E.4.5 main content).
+// One harness per command SHAPE: the command stream is concrete (every loop bound and branch of the
+// interpreter is then concrete), the data stream -- and therefore every previously decoded output
+// byte -- is symbolic, and the whole decoded profile is compared with an executable specification
+// written from the definition (reference semantics: libjxl UnpredictICC / LinearPredictICCValue).
+// Layout of an encoded stream:  varint(output_size) varint(commands_size) commands data.
+// ================================================================================================
+fn enc_varint(mut v: u64, out: &mut Vec<u8>) {
+    loop {
+        let b = (v & 0x7f) as u8;
+        v >>= 7;
+        if v == 0 { out.push(b); break; }
+        out.push(b | 0x80);
+    }
+}
+
+fn icc_stream(output_size: u64, commands: &[u8], data: &[u8]) -> Vec<u8> {
+    let mut s = Vec::with_capacity(24 + commands.len() + data.len());
+    enc_varint(output_size, &mut s);
+    enc_varint(commands.len() as u64, &mut s);
+    s.extend_from_slice(commands);
+    s.extend_from_slice(data);
+    s
+}
+
+/// E.4.3: header byte i = residual + prediction from the bytes decoded so far (at most 128 of them).
+fn spec_icc_header(size: u32, resid: &[u8], exp: &mut [u8]) {
+    let mut h = [0u8; 128];
+    let n = if resid.len() < 128 { resid.len() } else { 128 };
+    let mut i = 0;
+    while i < n {
+        h[i] = resid[i].wrapping_add(spec_icc_predict_header(i, size, &h));
+        exp[i] = h[i];
+        i += 1;
+    }
+}
+
+fn icc_same(out: &[u8], exp: &[u8]) -> bool {
+    if out.len() != exp.len() { return false; }
+    let mut i = 0;
+    while i < exp.len() {
+        if out[i] != exp[i] { return false; }
+        i += 1;
+    }
+    true
+}
+
+// ---- header-only profiles -----------------------------------------------------------------------
+fn icc_check_header_only(size: usize, resid: &[u8; 128]) {
+    let s = icc_stream(size as u64, &[], &resid[..size]);
+    let r = decode_icc(&s);
+    let mut exp = [0u8; 128];
+    spec_icc_header(size as u32, &resid[..size], &mut exp);
+    match &r {
+        Ok(out) => assert!(icc_same(out, &exp[..size]), "[C18] profile of at most 128 bytes = residuals + header prediction"),
+        Err(_) => assert!(false, "[C18] a header-only stream with all its residuals decodes"),
+    }
+    if size > 0 {
+        // one residual missing: rejected
+        let s = icc_stream(size as u64, &[], &resid[..size - 1]);
+        assert!(decode_icc(&s).is_err(), "[C18,C01] data stream shorter than the header is rejected");
+    }
+}
+
+#[kani::proof]
+#[kani::unwind(130)]
+fn icc_header_only() {
+    let resid: [u8; 128] = kani::any();
+    icc_check_header_only(0, &resid);
+    icc_check_header_only(1, &resid);
+    icc_check_header_only(44, &resid);
+    icc_check_header_only(127, &resid);
+    icc_check_header_only(128, &resid);
+    kani::cover!(resid[40] == b'S' && resid[41] == b'U');
+}
+
+// ---- main content ---------------------------------------------------------------------------------
+const ICC_H: usize = 128;
+
+/// Runs decode_icc on: empty tag list (varint 0), then `main` commands; data = 128 header residuals + `payload`.
+/// Returns (result, expected header).
+fn icc_run_main(output_size: usize, main: &[u8], data: &[u8]) -> (Result<Vec<u8>>, [u8; 128]) {
+    let mut commands = Vec::with_capacity(1 + main.len());
+    commands.push(0u8); // no tag list
+    commands.extend_from_slice(main);
+    let s = icc_stream(output_size as u64, &commands, data);
+    let mut hdr = [0u8; 128];
+    spec_icc_header(output_size as u32, &data[..ICC_H], &mut hdr);
+    (decode_icc(&s), hdr)
+}
+
+#[kani::proof]
+#[kani::unwind(130)]
+fn icc_cmd_copy() {
+    // command 1 (raw copy) of 5 bytes
+    let data: [u8; ICC_H + 5] = kani::any();
+    let (r, hdr) = icc_run_main(ICC_H + 5, &[1, 5], &data);
+    let mut exp = [0u8; ICC_H + 5];
+    exp[..ICC_H].copy_from_slice(&hdr);
+    exp[ICC_H..].copy_from_slice(&data[ICC_H..]);
+    match &r {
+        Ok(out) => assert!(icc_same(out, &exp), "[C18] command 1 appends the next num data bytes unchanged"),
+        Err(_) => assert!(false, "[C18] consistent raw-copy stream decodes"),
+    }
+}
